@@ -8,6 +8,8 @@
 import IcontractModel.Meta
 import IcontractModel.Spec.Override
 import IcontractModel.Lemmas.MetaFrame
+import IcontractModel.Spec.ChainHistory
+import IcontractModel.Lemmas.ChainLemmas
 namespace Icontract.Meta
 
 /-- **Collapse rule** (`_decorate_namespace_function`, inherited members): when the collapse is
@@ -89,5 +91,32 @@ theorem C04_subclass_gets_own_invariant_lists (w : World) (bases : List ClsId) (
   unfold collapseInv
   simp only [hany, Bool.not_true, Bool.and_false, Bool.false_eq_true, if_false]
   exact ⟨_, _, rfl⟩
+
+/-! ### the chain reading, for chains of any depth -/
+
+/-- **Liskov combination along a chain of any depth.**  Start from the empty world and define a
+single-inheritance chain of classes (ids `1, 2, ...`), each overriding the ordinary member `key` with its own
+function (distinct function ids) carrying at least one own precondition.  Then every definition is accepted,
+and for EVERY level `i` of the chain - not only the last - introspection of that level's function shows
+* as preconditions the groups of levels `0..i`, inherited first (the disjunction of the chain's groups),
+* as postconditions the concatenation of the postconditions of levels `0..i` (their conjunction),
+so that later definitions never change what an earlier class demands or promises. -/
+theorem C04_chain_effective_contracts (key : String) (hkey : key ≠ "__init__" ∧ key ≠ "__new__")
+    (ls : List ChainLevel) (hf : (ls.map (·.f)).Nodup) (hpre : ∀ l ∈ ls, l.pre ≠ []) :
+    ∃ w, buildChain key {} none 1 ls = .ok w ∧
+      ∀ i (hi : i < ls.length),
+        preOf w (ls[i]).f = (upTo ls i).map (·.pre) ∧
+        postsOf w (ls[i]).f = (upTo ls i).flatMap (·.posts) := by
+  obtain ⟨w, hb, inv⟩ := buildChain_inv key hkey ls [] {} (ChainInv.empty key)
+    (by rw [List.nil_append]; exact hf) hpre
+  rw [List.nil_append] at inv
+  exact ⟨w, hb, fun i hi => inv.observe i hi⟩
+
+/-- non-vacuity: a concrete chain of three levels, evaluated by the kernel -/
+example :
+    (match buildChain "m" {} none 1 [⟨10, [1, 2], [7]⟩, ⟨11, [3], []⟩, ⟨12, [4], [8, 9]⟩] with
+     | .ok w => (preOf w 12, postsOf w 12, preOf w 10)
+     | .error _ => ([], [], [])) = ([[1, 2], [3], [4]], [7, 8, 9], [[1, 2]]) := by
+  decide
 
 end Icontract.Meta
